@@ -41,7 +41,7 @@ def run(ctx):
                         "the recording wrapper around MutableFileNode._do_serialized (harness/serializer_driver.py) logs Start when "
                         "the chain invokes the operation and Finish when its Deferred fires",
                         "no message is lost forever (an operation whose server never answers legitimately blocks the queue)",
-                        "an upload() with a servermap older than a later publish is outside this property (any outcome accepted)"]
+                        "an upload() with a servermap older than a later publish, or built while server answers failed, is outside this property (any outcome accepted)"]
     n = 3 if ctx.quick else 4
     for kind in ("file", "dir"):
         consts = dict(N=n, Kind=kind, Mech="chain", live="PROPERTY C13_NoBlock" if kind == "file" else "")
